@@ -82,7 +82,7 @@ static void gen_faults(Plan* p, Rng* r, int n) { int i; for (i = 0; i < n; i++) 
 
 /* ---- decode paths ---- */
 enum { V_ONESHOT = 0, V_STREAM, V_STABLEOUT, V_BUFFERLESS, V_INPLACE, V_DDICT, V_STREAM_NOASM, V_SIMPLE_API, V_COUNT };
-typedef struct { size_t r; uint8_t* out; size_t n; long calls; } VRes;
+typedef struct { size_t r; uint8_t* out; size_t n; long calls; size_t produced; } VRes;
 
 static void set_coins(const Plan* p, int variant) {
     int const m = (int)plan_get(p, "coin_mode", 0) + variant;   /* vary across variants of the same frame */
@@ -107,7 +107,7 @@ static void run_variant(const Plan* p, const Frame* fr, int variant, size_t cap,
     case V_ONESHOT: { uint8_t* src = (uint8_t*)sim_buf_new(fr->n); if (fr->n) memcpy(src, fr->f, fr->n); r = ZSTD_decompressDCtx(d, out, cap, src, fr->n); if ((e = sim_buf_check(src)) != NULL) sim_violation("src_overrun", "one-shot: %s", e); sim_buf_free(src); v->n = ZSTD_isError(r) ? 0 : r; break; }
     case V_SIMPLE_API: { if (fr->dict || fr->magicless) { r = ZSTD_decompressDCtx(d, out, cap, fr->f, fr->n); } else r = ZSTD_decompress(out, cap, fr->f, fr->n); v->n = ZSTD_isError(r) ? 0 : r; break; }
     case V_STREAM: case V_STREAM_NOASM: { DecResult dr; if (variant == V_STREAM_NOASM) ZSTD_DCtx_setParameter(d, ZSTD_d_disableHuffmanAssembly, 1);
-        sess_run_dhist(p, d, fr->f, fr->n, fr->magicless, 0, &dr); r = dr.err ? dr.err : (dr.out_size <= cap ? dr.out_size : 0 /* streaming has per-call capacities (guarded inside the driver); the total is not bounded by cap */); v->calls = dr.ncalls;
+        sess_run_dhist(p, d, fr->f, fr->n, fr->magicless, 0, &dr); v->produced = dr.out_size; r = dr.err ? dr.err : (dr.out_size <= cap ? dr.out_size : 0 /* streaming has per-call capacities (guarded inside the driver); the total is not bounded by cap */); v->calls = dr.ncalls;
         if (!dr.err) { if (dr.out_size > cap) { if (!fuzz) sim_violation("variant_mismatch", "streaming produced %zu bytes > expected %zu", dr.out_size, cap); } else { if (dr.out_size) memcpy(out, dr.out, dr.out_size); v->n = dr.out_size; } if (dr.consumed != fr->n && !fuzz) r = (size_t)-ZSTD_error_srcSize_wrong; }
         dec_result_free(&dr); break; }
     case V_STABLEOUT: { ZSTD_inBuffer in; ZSTD_outBuffer o; size_t pos = 0; size_t seg = (size_t)plan_get(p, "dfin_in", 4096); long g = 0; if (seg < 1) seg = 1;
@@ -189,19 +189,19 @@ static void exec04(const Plan* p) {
         if (v == V_DDICT && !fr.dict) continue;
         if (fr.legacy && (v == V_STABLEOUT || v == V_INPLACE)) continue;
         run_variant(p, &fr, v, fr.rn, &res, 0);
-        /* a wire-faulted frame that the reference decoder still accepts may sit on a point where the specification leaves room
-         * (e.g. bytes after a sequence count of 0): its validity is then disputed, not the decode paths.  Such a frame must be
-         * refused by EVERY path of the library, or accepted by every path with R's output; frames from the compressor and from
-         * the repository's generator stay strict. */
-        if (ZSTD_isError(res.r) && kind == 3) { if (accepted) sim_violation("variant_disagree_on_validity", "decode path %d rejects (%s) a faulted frame that path(s) before it decoded", v, ZSTD_getErrorName(res.r)); if (!rejected) { first_rej = v; first_err = res.r; } rejected++; sim_buf_free(res.out); continue; }
-        if (rejected) sim_violation("variant_disagree_on_validity", "decode path %d accepts a faulted frame that path %d rejected (%s)", v, first_rej, ZSTD_getErrorName(first_err));
+        /* a wire-faulted frame that the reference decoder still accepts is not thereby VALID: the reference does not enforce
+         * every rule (Block_Maximum_Size, bytes after a sequence count of 0, window limits of the streaming decoder), and the
+         * library's paths enforce different subsets of them.  For such a frame a path may refuse; every path that ACCEPTS must
+         * return the reference output.  Frames from the compressor and from the repository's generator stay strict. */
+        if (ZSTD_isError(res.r) && kind == 3) { if (!rejected) { first_rej = v; first_err = res.r; } rejected++; sim_buf_free(res.out); continue; }
         accepted++;
         if (ZSTD_isError(res.r)) sim_violation("variant_rejects_valid_frame", "decode path %d fails on a frame the reference decoder accepts (%zu bytes -> %zu): %s", v, fr.n, fr.rn, ZSTD_getErrorName(res.r));
         if (res.n != fr.rn || (res.n && memcmp(res.out, fr.R, res.n))) sim_violation("variant_mismatch", "decode path %d produces %zu bytes, reference %zu, or content differs", v, res.n, fr.rn);
         sim_buf_free(res.out);
         snprintf(pb, sizeof pb, "c04.path%d_ok", v); sim_probe(pb);
     }
-    if (rejected) { sim_probe("c04.faulted_frame_validity_disputed"); goto done; }
+    (void)first_rej; (void)first_err;
+    if (rejected) { sim_probe(accepted ? "c04.faulted_frame_refused_by_some_paths" : "c04.faulted_frame_refused_by_all_paths"); goto done; }
     }
     sim_probe_n("c04.coin_huf_flipped", sim_hook_coin_fired(ZSTD_VC_hufSelectDecoder)); sim_probe_n("c04.coin_prefetch_forced", sim_hook_coin_fired(ZSTD_VC_usePrefetchDecoder)); sim_probe_n("c04.coin_bmi2_off", sim_hook_coin_fired(ZSTD_VC_disableBmi2));
     sim_event_bytes("R", fr.R, fr.rn);
@@ -248,7 +248,8 @@ static void exec03(const Plan* p) {
         if (v == V_DDICT && !fr.dict) continue;
         run_variant(p, &fr, v, cap, &res, 1);
         if (!ZSTD_isError(res.r)) sim_probe("c03.accepted"); else sim_probe("c03.rejected");
-        if (res.calls > (long)(fr.n + cap) * 2 + 100000) sim_violation("unbounded_calls", "decode path %d needed %ld calls for %zu input bytes", v, res.calls, fr.n);
+        /* every call must consume or produce at least one byte (stalls are bounded by the driver): the number of calls is bounded by input + output bytes */
+        if (res.calls > (long)(fr.n + cap + res.produced) * 2 + 100000) sim_violation("unbounded_calls", "decode path %d needed %ld calls for %zu input bytes and %zu output bytes", v, res.calls, fr.n, res.produced);
         sim_buf_free(res.out);
     }
     /* inspectors */
